@@ -106,6 +106,46 @@ theorem lawful_cmpKey : Lawful cmpKey :=
   lawful_prod lawful_nat (lawful_prod (lawful_list lawful_nat) (lawful_prod (lawful_list lawful_int)
     (lawful_opt (lawful_list (lawful_prod lawful_int (lawful_list lawful_nat))))))
 
+/-! ### the comparison key of a version -/
+
+theorem cmpkey_epoch (v : Version) : (cmpkey v).1 = v.epoch := by
+  unfold cmpkey; split <;> rfl
+
+theorem cmpkey_release (v : Version) : (cmpkey v).2.1 = trim v.release := by
+  unfold cmpkey; split <;> rfl
+
+/-- the epoch decides first, then the release segment without trailing zeros (numerically, position by position) -/
+theorem vcmp_epoch_release (a b : Version) :
+    (a.epoch < b.epoch → vcmp a b = .lt) ∧
+    (a.epoch = b.epoch → listCmp natCmp (trim a.release) (trim b.release) = .lt → vcmp a b = .lt) := by
+  have ha1 := cmpkey_epoch a
+  have hb1 := cmpkey_epoch b
+  have ha2 := cmpkey_release a
+  have hb2 := cmpkey_release b
+  unfold vcmp cmpKey
+  generalize cmpkey a = ka at *
+  generalize cmpkey b = kb at *
+  obtain ⟨e1, r1, s1, l1⟩ := ka
+  obtain ⟨e2, r2, s2, l2⟩ := kb
+  simp only at ha1 hb1 ha2 hb2
+  subst ha1; subst hb1; subst ha2; subst hb2
+  constructor
+  · intro h
+    simp [prodCmp, natCmp, h]
+  · intro h hl
+    have : natCmp a.epoch b.epoch = .eq := by rw [h]; exact lawful_nat.refl _
+    simp [prodCmp, this, hl]
+
+theorem trim_snoc_zero (r : List Nat) : trim (r ++ [0]) = trim r := by
+  simp [trim]
+
+theorem cmpKey_same (e : Nat) (r : List Nat) (s1 s2 : List Int) (l1 l2 : Option (List (Int × List Nat))) :
+    cmpKey (e, r, s1, l1) (e, r, s2, l2) =
+      prodCmp (listCmp intCmp) (optCmp (listCmp (prodCmp intCmp (listCmp natCmp)))) (s1, l1) (s2, l2) := by
+  have h1 : natCmp e e = .eq := lawful_nat.refl e
+  have h2 : listCmp natCmp r r = .eq := (lawful_list lawful_nat).refl r
+  simp [cmpKey, prodCmp, h1, h2]
+
 /-! ### listings -/
 
 /-- strictly ascending w.r.t. `cmp` -/
